@@ -477,7 +477,7 @@ class ParsersWorld:
                  "p_focus": rs.choice([0.03, 0.1, 0.3]) if gran == "L" else 0.0,
                  "pct": 0,
                  "cancel_arm": rs.random() < 0.2, "max_len": 2500 if gran == "L" else 6000}
-        if gran == "L" and rs.random() < 0.5:
+        if gran == "L" and rs.random() < 0.7:
             # PCT arm: few switches, one task suspended at a random line of the focus file while the others run on
             swarm["pct"] = rs.choice([1, 1, 2])
             if swarm["focus"] is None:
